@@ -84,7 +84,7 @@ theorem swapGate_sign_formula (nsym : Nat) (fss : List Bool) (ps : List (List Na
   exact sgn_congr (fdot_cmod2 _ _ _)
 
 /-- **`swap_gate` is its own inverse** (whole tensor, every configuration, every grouping) -/
-theorem swapGate_involutive (f : Fermionic) (nsym : Nat) (axes : List (List Nat)) (a b : List Block)
+theorem swapGate_involutive (f : Fermionic) (nsym : Nat) (axes : List (List Nat)) (a b : List SBlock)
     (h : swapGate f nsym axes a = .ok b) : swapGate f nsym axes b = .ok a := by
   unfold swapGate at *
   by_cases ht : f.truthy = true
@@ -110,7 +110,7 @@ theorem swapGate_involutive (f : Fermionic) (nsym : Nat) (axes : List (List Nat)
 
 /-- **bosonic identity**: `fermionic = False` (or the empty tuple) returns the argument; a tuple
 without any `True` changes no block. -/
-theorem swapGate_bosonic (f : Fermionic) (nsym : Nat) (axes : List (List Nat)) (a : List Block) :
+theorem swapGate_bosonic (f : Fermionic) (nsym : Nat) (axes : List (List Nat)) (a : List SBlock) :
     (f.truthy = false → swapGate f nsym axes a = .ok a) ∧
     ((∀ x ∈ f.fss nsym, x = false) → ∀ b, swapGate f nsym axes a = .ok b → b = a) := by
   constructor
@@ -179,7 +179,7 @@ theorem swapGateCharge_sign_formula (nsym : Nat) (fss : List Bool) (axes : List 
   simp only [Function.comp]
   exact sgn_congr (fdot_cmod2_right _ _ _)
 
-theorem swapGateCharge_involutive (f : Fermionic) (nsym : Nat) (axes : List Nat) (charges : List Int) (a b : List Block)
+theorem swapGateCharge_involutive (f : Fermionic) (nsym : Nat) (axes : List Nat) (charges : List Int) (a b : List SBlock)
     (h : swapGateCharge f nsym axes charges a = .ok b) : swapGateCharge f nsym axes charges b = .ok a := by
   unfold swapGateCharge at *
   by_cases ht : f.truthy = true
@@ -201,7 +201,7 @@ theorem swapGateCharge_involutive (f : Fermionic) (nsym : Nat) (axes : List Nat)
   · simp only [ht, Bool.not_false, if_true] at h ⊢
     injection h with h; rw [h]
 
-theorem swapGateCharge_bosonic (f : Fermionic) (nsym : Nat) (axes : List Nat) (charges : List Int) (a : List Block) :
+theorem swapGateCharge_bosonic (f : Fermionic) (nsym : Nat) (axes : List Nat) (charges : List Int) (a : List SBlock) :
     (f.truthy = false → swapGateCharge f nsym axes charges a = .ok a) ∧
     ((∀ x ∈ f.fss nsym, x = false) → ∀ b, swapGateCharge f nsym axes charges a = .ok b → b = a) := by
   constructor
